@@ -299,6 +299,16 @@ pub fn isqrt_verified(n: &BigInt) -> BigInt {
     x
 }
 
+/// Fixed 256-bit constant with irregular limbs (fractional bits of the golden ratio, sqrt 2, sqrt 3, sqrt 5).
+fn irregular_256() -> BigInt {
+    let limbs = [0x9E37_79B9_7F4A_7C15u64, 0x6A09_E667_F3BC_C908, 0xBB67_AE85_84CA_A73B, 0x3C6E_F372_FE94_F82B];
+    let mut v = BigInt::zero();
+    for l in limbs {
+        v = (v << 64usize) + BigInt::from(l);
+    }
+    v
+}
+
 fn must_k(k: u32, bits: u32, scale: u32, digits: u32) -> bool {
     // exponents that are always kept, also in the quick tier: limb boundaries, scale, extremes
     let two = [0u32, 1, 62, 63, 64, 65, 126, 127, 128, 129, 190, 191, 192, bits - 3, bits - 2];
@@ -308,7 +318,8 @@ fn must_k(k: u32, bits: u32, scale: u32, digits: u32) -> bool {
 
 /// The boundary lattice L(T) (DESIGN §4.3) as sorted, distinct raw sub-unit integers in range.
 /// `quick` keeps every third exponent (plus the limb/scale boundaries); `extras` adds the denser thorough
-/// families (m*10^k, 3*2^k, alternating bit patterns, 2^k +- 2^(k/2)).
+/// families (m*10^k, 10^k/{6,9,11,13}, 10^k +- 10^(k/2), 3*2^k, alternating and irregular bit patterns of every
+/// width, 2^k +- 2^j for j in {k/3, k/2, 2k/3, k-2}).
 pub fn lattice(ty: &Ty, quick: bool, extras: bool) -> Vec<BigInt> {
     let mut s: BTreeSet<BigInt> = BTreeSet::new();
     let mut put = |v: BigInt| {
@@ -340,6 +351,13 @@ pub fn lattice(ty: &Ty, quick: bool, extras: bool) -> Vec<BigInt> {
             for m in [2u32, 3, 4, 6, 7, 8, 9] {
                 put(&p * m);
             }
+            for d in [6u32, 9, 11, 13] {
+                put(&p / d);
+            }
+            if k >= 2 {
+                put(&p + pow10(k / 2));
+                put(&p - pow10(k / 2));
+            }
             if k >= ty.scale {
                 // integer part 10^(k-scale) minus one sub-unit-scale step: 10^k - 10^(k-scale)
                 put(&p - pow10(k - ty.scale));
@@ -367,6 +385,20 @@ pub fn lattice(ty: &Ty, quick: bool, extras: bool) -> Vec<BigInt> {
             }
             put(alt.clone());
             put(alt << 1usize);
+            // two-bit values 2^k +- 2^j for a few more j
+            for j in [k / 3, 2 * k / 3, k.saturating_sub(2)] {
+                if j < k {
+                    put(&p + pow2(j));
+                    put(&p - pow2(j));
+                }
+            }
+            // irregular bit pattern of width k (top k bits of a fixed 256-bit constant) and its k-bit complement:
+            // carries and borrows across every limb boundary with "random-looking" limbs
+            if k >= 8 {
+                let irr = irregular_256() >> ((256 - k) as usize);
+                put(pow2(k) - 1 - &irr);
+                put(irr);
+            }
         }
     }
     // extremes
